@@ -46,7 +46,8 @@ class Raise:
 EXC_PARENT = {
     'BaseException': None, 'Exception': 'BaseException', 'KeyboardInterrupt': 'BaseException',
     'SystemExit': 'BaseException', 'CancelledError': 'BaseException',
-    'GeneratorExit': 'BaseException',
+    'GeneratorExit': 'BaseException', 'BrokenPipeError': 'OSError',
+    'WebSocketConnectionClosedException': 'Exception', 'WebSocketTimeoutException': 'Exception',
     'ArithmeticError': 'Exception', 'ZeroDivisionError': 'ArithmeticError',
     'OverflowError': 'ArithmeticError',
     'LookupError': 'Exception', 'KeyError': 'LookupError', 'IndexError': 'LookupError',
@@ -482,6 +483,14 @@ class Engine:
                     ncf.append((xid, (z3.Implies(z3.And(ix >= 0, ix < la), x == a[ix]),
                                       z3.Implies(z3.And(ix >= la, ix < la + z3.Length(b)),
                                                  x == b[ix - la]))))
+            elif k == z3.Z3_OP_SEQ_EXTRACT and len(ch) == 3 and z3.is_app(ch[0]) and \
+                    ch[0].decl().kind() == z3.Z3_OP_SEQ_CONCAT and ch[0].num_args() == 2 and \
+                    z3.is_int_value(ch[1]) and ch[1].as_long() == 0 and \
+                    not memo[ch[2].get_id()][1][2]:
+                # a prefix of a concatenation that lies within the first part (theory-valid)
+                a, n = ch[0].arg(0), ch[2]
+                ncf.append((xid, (z3.Implies(z3.And(n >= 0, n <= z3.Length(a)),
+                                             x == z3.SubSeq(a, z3.IntVal(0), n)),)))
             elif k == z3.Z3_OP_SELECT and len(ch) == 2 and \
                     ch[1].sort() in (z3.IntSort(), z3.StringSort()):
                 idx.append(ch[1])
@@ -565,8 +574,15 @@ class Engine:
             if kf['function'] == self.cur_func and kf['kind'] == kind and kf['label'] == label:
                 # known finding = excluded region: prove the obligation outside `when`, and
                 # check separately that the finding still reproduces inside it
-                w = self.spec_bool(kf['when'], self.cur_pre, self.cur_penv)
-                rep = Obligation(self.cur_func, 'kf-repro', label, props, prem + [w], goal, line,
+                if kf.get('scope') == 'local':     # `when` speaks about locals at the program point
+                    w = self.spec_bool(kf['when'], st, dict(st.env))
+                else:
+                    w = self.spec_bool(kf['when'], self.cur_pre, self.cur_penv)
+                # reproduction check: satisfiability of the region; quantified premises are left
+                # out (the solvers return no model with them) - it only decides whether the
+                # KNOWN-FINDING line is printed, the native witness is in known_findings.json
+                rep = Obligation(self.cur_func, 'kf-repro', label, props,
+                                 [p for p in prem if not self.analyze(p)[2]] + [w], goal, line,
                                  st.trace, kf['text'])
                 rep.kf = kf
                 rep.inputs = dict(self.inputs)
@@ -731,6 +747,8 @@ class Engine:
         return r
 
     def _coerce(self, v, ty):
+        if v.ty.kind == 'none' and is_opt(ty):
+            return V(ty, z3.IntVal(0))          # None into an optional reference
         k = ty.kind
         if k == 'tup' and v.ty.kind == 'tup' and len(ty.args) == len(v.t):
             return V(ty, tuple(self.coerce(x, t) for x, t in zip(v.t, ty.args)))
@@ -1023,6 +1041,9 @@ class Engine:
             if fn is None:
                 raise EngineError('exception attribute %s at line %d' % (attr, line))
             yield st, V(FN, ('libm', 'exc.' + attr, o, fn))
+            return
+        if k == 'opaque' and (o.ty.args[0], attr) in self.lib.OPAQUE_ATTR:
+            yield st, self.lib.OPAQUE_ATTR[(o.ty.args[0], attr)](self, st, o)
             return
         m = self.lib.method(self, o, attr)
         if m is None:
@@ -2092,6 +2113,9 @@ class Engine:
             for t in texpr.elts:
                 out += self.exc_classes(st, t)
             return out
+        if isinstance(texpr, ast.Attribute) and texpr.attr == 'Empty':
+            # q.Empty: the clients' create_queue() stores queue.Empty / asyncio.QueueEmpty there
+            return ['QueueEmptyLib']
         vals = [v for _, v in self.ev(texpr, st)]
         if len(vals) != 1 or isinstance(vals[0], Raise):
             raise EngineError('cannot resolve exception class at line %d' % texpr.lineno)
